@@ -22,6 +22,15 @@ def main():
     except Exception:
         pass
     sys.setrecursionlimit(int(os.environ.get("VERIF_RECURSION", "1000")))
+    cov = None
+    if os.environ.get("VERIF_COV"):
+        # dev tool (tools/coverage_gaps.sh): which engine lines does the union of the workloads reach?  Never set by a registered command.
+        import coverage
+        import time
+        repo_src = [p for p in sys.path if p.endswith("/src")][0]
+        cov = coverage.Coverage(data_file=os.path.join(os.environ["VERIF_COV"], ".coverage"), data_suffix=True, include=[repo_src + "/microjs/*"])
+        cov.start()
+        last_save = [time.time()]
     mods = {}
     for line in sys.stdin:
         if not line.strip():
@@ -46,6 +55,9 @@ def main():
                 if isinstance(e, (KeyboardInterrupt, SystemExit)):
                     raise
                 out.append({"_exc": type(e).__name__, "tb": traceback.format_exc()[-1500:]})
+        if cov is not None and time.time() - last_save[0] > 3:
+            cov.save()      # the pool kills its workers: save as we go
+            last_save[0] = time.time()
         proto.write(json.dumps({"results": out}, ensure_ascii=True) + "\n")
         proto.flush()
 
